@@ -8,6 +8,7 @@ import (
 
 	"tunnox-core/internal/core/idgen"
 	"tunnox-core/internal/core/node"
+	rnd "tunnox-core/internal/utils/random"
 	"tunnox-core/internal/verifharness/common"
 )
 
@@ -62,6 +63,8 @@ func candID(kind int, p uint64) uint64 {
 	return p
 }
 
+var rndCharset = rnd.Charset
+
 var defTTL = idgen.DefaultIDTTL.Milliseconds()
 
 func tickable(store string) bool { return store == "dbl" || store == "red" || store == "hyr" }
@@ -114,6 +117,21 @@ func genExhaustive(emit func(string)) {
 	}
 }
 
+// boundary candidates: raw 64-bit values at the edges of random.Int64's modulo (0, range-1 -> ClientIDMax,
+// range -> wraps to ClientIDMin, 2^63, 2^64-1) and the smallest / largest 8-character ids
+func boundaryCand(r *common.Rand, kind int) uint64 {
+	if kind == 0 {
+		rng := uint64(idgen.ClientIDMax - idgen.ClientIDMin + 1)
+		return common.Pick(r, []uint64{0, rng - 1, rng, 1 << 63, ^uint64(0), ^uint64(0) - ^uint64(0)%rng})
+	}
+	n := uint64(len(rndCharset))
+	top := uint64(1)
+	for i := 0; i < idgen.RandomPartLength; i++ {
+		top *= n
+	}
+	return common.Pick(r, []uint64{0, top - 1, n - 1, top - n})
+}
+
 // ---- B: random structured histories
 func genRandom(r *common.Rand, n int, emit func(string), stores []string, cas bool, maxThreads int, oneThreadPerInst bool, tag string) {
 	for c := 0; c < n; c++ {
@@ -156,6 +174,9 @@ func genRandom(r *common.Rand, n int, emit func(string), stores []string, cas bo
 					var pat []uint64
 					for i := 0; i < pl; i++ {
 						v := uint64(1 + r.Intn(space))
+						if r.Intn(8) == 0 {
+							v = boundaryCand(r, k)
+						}
 						if k == 0 && r.Intn(4) == 0 {
 							// same id through the modulo of random.Int64
 							v += uint64(idgen.ClientIDMax-idgen.ClientIDMin+1) * uint64(1+r.Intn(1000))
@@ -293,7 +314,7 @@ func genFaultExhaustive(emit func(string)) {
 // ---- C: exhaustion — every candidate taken for MaxAttempts attempts
 func genExhaustion(r *common.Rand, n int, emit func(string)) {
 	for c := 0; c < n; c++ {
-		store := common.Pick(r, []string{"dbl", "dbl", "mem", "red", "hyr"})
+		store := common.Pick(r, []string{"dbl", "dbl", "mem", "red", "hyr", "hy1"})
 		kind := r.Intn(4)
 		space := 1 + r.Intn(3)
 		var pre []preEnt
@@ -343,7 +364,7 @@ func genFallback(r *common.Rand, n int, emit func(string)) {
 // ---- free-running contention (no gates): real parallelism, only Generate calls
 func genFree(r *common.Rand, n int, emit func(string)) {
 	for c := 0; c < n; c++ {
-		store := common.Pick(r, []string{"dbl", "dbl", "mem", "red", "hyr", "hyb"})
+		store := common.Pick(r, []string{"dbl", "dbl", "mem", "red", "hyr", "hyb", "hy1"})
 		cas := true
 		sameInst := r.Bool()
 		if store == "dbl" && r.Bool() {
@@ -382,7 +403,7 @@ func genFree(r *common.Rand, n int, emit func(string)) {
 // the same tiny candidate space of every real store kind.  Expired markers are written with a 1 ms
 // TTL and the case waits 3 ms (really, on the memory-backed stores, whose deletion is lazy).
 func genFreeStates(r *common.Rand, rounds int, emit func(string)) {
-	stores := []string{"mem", "hyb", "mem", "hyb", "red", "hyr", "dbl"}
+	stores := []string{"mem", "hyb", "hy1", "hyb", "red", "hyr", "dbl", "mem"}
 	for c := 0; c < rounds; c++ {
 		store := stores[c%len(stores)]
 		nt := []int{2, 4, 8}[c%3]
@@ -434,6 +455,8 @@ func genDoubleRelease(emit func(string)) {
 	progs := [][]thrSpec{
 		{{0, []string{"g 9 0", "o", "o"}}, {1, []string{"g 9 0"}}, {2, []string{"g 9 0"}}},
 		{{0, []string{"g 9 0", "o", "o", "g 9 0"}}, {1, []string{"g 9 0", "o", "o"}}, {2, []string{"g 9 0", "w"}}},
+		// ticks of the heartbeat before and after the Release (it must stop with the Release)
+		{{0, []string{"g 9 0", "o", "w"}}, {1, []string{"g 9 0", "w", "o", "w"}}, {2, []string{"g 9 0"}}},
 	}
 	for pi, pr := range progs {
 		for m := 0; m < 729; m++ {
@@ -452,7 +475,7 @@ func genDoubleRelease(emit func(string)) {
 func genNode(r *common.Rand, n int, emit func(string)) {
 	lock := node.NodeIDLockTTL.Milliseconds()
 	for c := 0; c < n; c++ {
-		store := common.Pick(r, []string{"hyr", "hyr", "red", "dbl", "mem", "hyb"})
+		store := common.Pick(r, []string{"hyr", "hyr", "red", "dbl", "mem", "hyb", "hy1"})
 		var pre []preEnt
 		for i := 1; i <= 3; i++ {
 			if r.Intn(3) == 0 {
@@ -575,7 +598,7 @@ func generate(r *common.Rand, tier string, emit func(string)) {
 	genExhaustive(emit)
 	genFaultExhaustive(emit)
 	genDoubleRelease(emit)
-	real := []string{"dbl", "dbl", "dbl", "mem", "hyb", "red", "hyr"}
+	real := []string{"dbl", "dbl", "dbl", "mem", "hyb", "red", "hyr", "hy1"}
 	genRandom(r.Fork(), 900*scale, emit, real, true, 4, false, "")
 	genExhaustion(r.Fork(), 16*scale, emit)
 	genFallback(r.Fork(), 150*scale, emit)
